@@ -609,8 +609,12 @@ class _GlobalImportFinder:
 
     def find_import_statements(self):
         nodes = self.pymodule.get_ast().body
-        for node in nodes:
+        for index, node in enumerate(nodes):
             if isinstance(node, (ast.Import, ast.ImportFrom)):
+                if self._shares_its_line(nodes, index):
+                    # ``import a; b = 1``: an import statement is rewritten
+                    # and moved as whole lines, so this one is left alone
+                    continue
                 lines = self.pymodule.logical_lines
                 end_line = lines.logical_line_in(node.lineno)[1] + 1
             if isinstance(node, ast.Import):
@@ -618,3 +622,9 @@ class _GlobalImportFinder:
             if isinstance(node, ast.ImportFrom):
                 self.visit_from(node, end_line)
         return self.imports
+
+    def _shares_its_line(self, nodes, index):
+        node = nodes[index]
+        if index > 0 and nodes[index - 1].end_lineno >= node.lineno:
+            return True
+        return index + 1 < len(nodes) and nodes[index + 1].lineno <= node.end_lineno
